@@ -1,7 +1,7 @@
 (* C05 - proofs about the index-level kernel models of Model/Safety.v:
    the generic loop rules, and `<k>_safe` for the data-package kernels. *)
 From Coq Require Import ZArith Bool List String Lia Reals PrimFloat.
-From Hy Require Import Base.Num Model.Safety.
+From Hy Require Import Base.Num Gen.ConstsC05 Model.Safety.
 Import ListNotations.
 Open Scope Z_scope.
 
@@ -346,9 +346,11 @@ Proof.
   assert (0 <= nvalh) by (rewrite <- Ho; apply Zlen_nonneg).
   unfold var2h.
   destruct ((rainfall <? 0) || (1 <? rainfall)); [exact I|].
-  destruct (negb (nbsec =? 1800) && negb (nbsec =? 3600)) eqn:Eb; [exact I|].
-  assert (Hp : nbsec = 1800 \/ nbsec = 3600).
-  { apply andb_false_iff in Eb. destruct Eb as [E|E]; apply negb_false_iff, Z.eqb_eq in E; auto. }
+  destruct (negb (nbsec =? VAR2H_PERIOD_A) && negb (nbsec =? VAR2H_PERIOD_B)) eqn:Eb; [exact I|].
+  assert (Hp : 0 < nbsec <= 86400).
+  { apply andb_false_iff in Eb.
+    destruct Eb as [E|E]; apply negb_false_iff, Z.eqb_eq in E; subst nbsec;
+      unfold VAR2H_PERIOD_A, VAR2H_PERIOD_B; lia. }
   generalize (vh_position_post nvalvar varsec hstartsec Hl).
   destruct (vh_position true nvalvar varsec hstartsec) as [v|v|c v|e]; simpl; try tauto.
   intros (P1 & P2).
